@@ -479,6 +479,7 @@ pub fn execute(
             Place::Left => st.place_left += 1,
             Place::Right => st.place_right += 1,
             Place::Mid(_) => st.place_mid += 1,
+            Place::Over(_) => st.place_over += 1,
         }
     }
     let ch = w.choices.into_inner().unwrap();
@@ -661,6 +662,7 @@ pub fn op_name(op: &Op) -> &'static str {
         Op::PackedAll { .. } => "PackedAll",
         Op::Lockstep { .. } => "Lockstep",
         Op::Cost { .. } => "Cost",
+        Op::Refill { .. } => "Refill",
     }
 }
 
